@@ -751,7 +751,11 @@ func (r *Runner) resolveSlashBinaryExpression(v1, v2 interface{}) (interface{}, 
 func (r *Runner) resolvePercentBinaryExpression(v1, v2 interface{}) (interface{}, error) {
 	n1 := convToNumber(v1)
 	n2 := convToNumber(v2)
-	return newDecimalBig().Rem(n1, n2), nil
+	// The integer quotient may need far more digits than the remainder; with the
+	// result's own precision the library answers NaN ("division impossible").
+	ctx := decimal.Context128
+	ctx.Precision = decimal.MaxPrecision
+	return ctx.Rem(newDecimalBig(), n1, n2), nil
 }
 
 func (r *Runner) resolveAmpersandBinaryExpression(v1, v2 interface{}) (interface{}, error) {
